@@ -143,6 +143,9 @@ func run(r *report.Run, cc *sim.ChainCase) *report.Failure {
 			if info.Withdrawals > 0 {
 				r.Hit("withdrawal-carrying-payload")
 			}
+			if info.Pre != nil && len(info.Pre.Validators) > 1024 && nontrivial {
+				r.Hit("block-on-registry>1024")
+			}
 			if info.Slips > 0 {
 				r.ClassN("builder-op-slips", int64(info.Slips))
 			}
@@ -240,7 +243,7 @@ func TestCheck(t *testing.T) {
 	if r.Replay != "" {
 		return
 	}
-	r.Mandatory("fork:phase0", "fork:altair", "fork:bellatrix", "fork:capella", "fork:deneb", "block-with>=3-kinds", "post-upgrade-epoch-block", "exit-behind-nonempty-queue", "withdrawal-carrying-payload", "sync-member-near-zero-balance-with-mixed-seats", "sibling-replay-of-a-deposit-block")
+	r.Mandatory("fork:phase0", "fork:altair", "fork:bellatrix", "fork:capella", "fork:deneb", "block-with>=3-kinds", "post-upgrade-epoch-block", "exit-behind-nonempty-queue", "withdrawal-carrying-payload", "sync-member-near-zero-balance-with-mixed-seats", "sibling-replay-of-a-deposit-block", "block-on-registry>1024")
 	// ---- class tours: directed templates for deep situations the free generator reaches too rarely
 	nt := 2
 	if r.Thorough() {
@@ -252,6 +255,10 @@ func TestCheck(t *testing.T) {
 	})
 	r.Search(t, "tour-withdrawn-sync-members", 103, nt, func(rt *rapid.T) (any, *report.Failure) {
 		cc := sim.TourWithdrawnSyncMembers(rt, nil)
+		return cc, run(r, cc)
+	})
+	r.Search(t, "tour-large-registry", 104, nt/2+1, func(rt *rapid.T) (any, *report.Failure) {
+		cc := sim.TourLargeRegistry(rt)
 		return cc, run(r, cc)
 	})
 	r.Search(t, "tour-deposits", 102, nt, func(rt *rapid.T) (any, *report.Failure) {
